@@ -150,6 +150,20 @@ def derive_glob(rng, parts, vocab):
     comps = []
     i = 0
     while i < len(parts):
+        if i + 1 < len(parts) and rng.random() < 0.10:
+            # a branch token that spans two components (it contains a boundary): the walker must not prune by it
+            two = esc(parts[i]) + '/' + esc(parts[i + 1])
+            k = rng.randrange(4)
+            if k == 0:
+                comps.append('{%s,%s}' % (two, esc(rng.choice(vocab))))
+            elif k == 1:
+                comps.append('{%s,%s}' % (esc(rng.choice(vocab)), two))
+            elif k == 2:
+                comps.append('<%s/:1>%s' % (esc(parts[i]), esc(parts[i + 1])))
+            else:
+                comps.append('{%s/**/%s,%s}' % (esc(parts[i]), esc(parts[i + 1]), esc(rng.choice(vocab))))
+            i += 2
+            continue
         if rng.random() < 0.14 and (not comps or comps[-1] != '**'):
             comps.append('**')
             i += rng.randint(0, len(parts) - i)
